@@ -120,7 +120,7 @@ class Domain:
                     return self.real_div(to_real(a), to_real(b), st)
                 return UNK
             if self.float_mode == 'real':
-                a, b = to_real(a), to_real(b)
+                a, b = to_real(a), z3.simplify(to_real(b))
                 if op == '+':
                     return a + b
                 if op == '-':
@@ -731,6 +731,8 @@ class Domain:
         if name == 'forall' or name == 'exists':
             var = e.args[0].id
             lo, hi = eng.ev(e.args[1], st), eng.ev(e.args[2], st)
+            if not isint(lo) or not isint(hi):
+                return UNK          # a bound that is not tracked here (e.g. a callee-local name evaluated at a call site)
             x = z3.Int(fresh_name(var))
             sub = st.copy()
             sub.env[var] = x
